@@ -18,6 +18,7 @@
 #include <sstream>
 #include <string>
 #include <vector>
+#include <unistd.h>
 
 namespace pbt {
 
@@ -73,6 +74,27 @@ struct Ctx {
   std::set<std::string> labels;
   bool nontrivial = false;
   std::string desc;
+  int earlyFd = -1; // forked mode: the description is sent to the parent at once,
+                    // so it survives a crash of the child
+  void describe(const std::string &s) {
+    desc = s;
+    if (earlyFd >= 0) {
+      std::string o = "S ";
+      for (unsigned char ch : s) {
+        if (ch == '\\') o += "\\\\";
+        else if (ch == '\n') o += "\\n";
+        else if (ch == '\r') o += "\\r";
+        else o += (char)ch;
+      }
+      o += "\n";
+      size_t off = 0;
+      while (off < o.size()) {
+        ssize_t w = ::write(earlyFd, o.data() + off, o.size() - off);
+        if (w <= 0) break;
+        off += (size_t)w;
+      }
+    }
+  }
   void label(const std::string &s) { labels.insert(s); }
   void labelIf(bool c, const std::string &s) {
     if (c) labels.insert(s);
